@@ -802,6 +802,12 @@ def project(world, ph2, err, wr=None):
                 except Exception:
                     pass
         src, dist = nearest_source(fc2, cands, close=1e-6)
+        if src.startswith("produced") and "yaml" in cands:
+            # a coherent object: the force constants in the file ARE those its dataset produces; which of the two the
+            # loader took cannot be told from the numbers, and does not matter - the file's are the ones it must keep
+            s2, d2 = nearest_source(fc2, {"yaml": cands["yaml"]}, close=1e-9)
+            if s2 == "yaml":
+                src, dist = s2, d2
         fcobs["sym"] = src == "produced"
         fcobs["src"] = "produced" if src == "produced_raw" else src
         if src == "unknown":
